@@ -23,6 +23,7 @@ type natCfg struct {
 	mapping, filtering vnet.EndpointDependencyType
 	lifetime           time.Duration // 0 = default 30 s
 	oneToOne           int           // >0: 1:1 mode with that many IP pairs
+	viaRouter          bool          // inbound datagrams enter through Router.onInboundChunk of a real LAN router (not the translator alone)
 	twoIPs             bool          // NAPT router that holds a second external address (only the first is used for mappings)
 }
 
@@ -37,6 +38,9 @@ func (c natCfg) String() string {
 	x := ""
 	if c.twoIPs {
 		x = ",2 external IPs"
+	}
+	if c.viaRouter {
+		x += ",behind a LAN router"
 	}
 	return fmt.Sprintf("map=%s,filt=%s,life=%v%s", depName(c.mapping), depName(c.filtering), c.life(), x)
 }
@@ -82,6 +86,7 @@ type natMapping struct {
 type natSys struct {
 	historyKey bool          // identify states by their history instead of a dump (deep starts)
 	hist       []string      // every operation so far (only kept with historyKey)
+	router     *vnet.Router  // set with cfg.viaRouter: inbound datagrams go through Router.onInboundChunk
 	nops       int           // operations so far (selects the IP representation of the next chunk)
 	lastOpAt   time.Duration // when the previous datagram was handled: the next chunk carries that instant as its queue timestamp
 	mode       string
@@ -112,11 +117,18 @@ func newNatSys(mode string, cfg natCfg, alpha []string, lastOp *string) *natSys 
 			mapped = append(mapped, "1.2.3.5")
 		}
 	}
-	z, err := vnet.ZZNewNAT(t, mapped, local)
+	var z *vnet.ZZNAT
+	var rt *vnet.Router
+	var err error
+	if cfg.viaRouter {
+		rt, z, err = vnet.ZZNewNATRouter(t, natRouterIP)
+	} else {
+		z, err = vnet.ZZNewNAT(t, mapped, local)
+	}
 	if err != nil {
 		panic(err)
 	}
-	return &natSys{mode: mode, cfg: cfg, z: z, alpha: alpha, lastOp: lastOp,
+	return &natSys{mode: mode, cfg: cfg, z: z, router: rt, alpha: alpha, lastOp: lastOp,
 		byKey: map[string]*natMapping{}, byExt: map[string]*natMapping{}, extSet: map[string]bool{}}
 }
 
@@ -216,10 +228,12 @@ func (s *natSys) Apply(op string) (obs, sig, msg string) {
 					liveN++
 				}
 			}
-			s.dead = true
 			if liveN >= 16384 {
-				return "o:exhausted", "", "" // every port of the dynamic range is held by a live mapping
+				// every port of the dynamic range is held by a live mapping: the datagram is dropped and
+				// nothing else may have changed (the history goes on)
+				return "o:exhausted", "", ""
 			}
+			s.dead = true
 			if c02 {
 				return "o:err", "C02 translation-failed", fmt.Sprintf("%v: outbound %s -> %s failed (%v, ok=%v) although only %d mappings are live and the dynamic range has 16384 ports", s.cfg, src, dst, err, ok, liveN)
 			}
@@ -314,7 +328,14 @@ func (s *natSys) Apply(op string) (obs, sig, msg string) {
 		s.nops++
 		vnet.ZZIPForm = 4 + 12*(s.nops%2)
 		vnet.ZZStamp = zzvsched.Base.Add(s.lastOpAt)
-		nsrc, ndst, data, err := s.z.Inbound(src, dst, payload)
+		var nsrc, ndst string
+		var data []byte
+		var err error
+		if s.router != nil {
+			nsrc, ndst, data, err = vnet.ZZRouterInbound(s.router, src, dst, payload)
+		} else {
+			nsrc, ndst, data, err = s.z.Inbound(src, dst, payload)
+		}
 		vnet.ZZIPForm, vnet.ZZStamp = 0, time.Time{}
 		s.lastOpAt = zzvsched.Elapsed()
 		if s.cfg.oneToOne > 0 {
@@ -591,6 +612,25 @@ func runNATBody(mode, tier string, shard, shards int, rep *SeqReport, lastOp, cu
 			}
 		}
 	}
+	// the same full range behind a real LAN router: inbound datagrams enter through Router.onInboundChunk, so
+	// whatever the router does before asking its translator is covered, up to the last port of the range
+	{
+		for _, cfg := range []natCfg{{mapping: vnet.EndpointIndependent, filtering: vnet.EndpointIndependent, viaRouter: true},
+			{mapping: vnet.EndpointIndependent, filtering: vnet.EndpointAddrPortDependent, viaRouter: true}} {
+			if !mine() {
+				continue
+			}
+			cfg := cfg
+			var prefix []string
+			for i := 0; i < 16384; i++ {
+				prefix = append(prefix, fmt.Sprintf("O P%d X1", i))
+			}
+			alpha := []string{"I X1 E0", "I X1 EL", "I Z9 EL", "I Z9 E0", "O P0 X1"}
+			*curFam = "deep via router " + cfg.String()
+			r := bfs("nat-deep-via-router "+cfg.String(), func() seqSystem { n := newNatSys(mode, cfg, alpha, lastOp); n.historyKey = true; return n }, prefix, 2, 3000, rep)
+			rep.family("port-range-deep-start-via-router", r.transitions)
+		}
+	}
 	// deep start with a table of MIXED age: the range is filled, the mappings on its first and last port are
 	// refreshed, everything else expires, and the freed ports in between are given to new endpoints - the range
 	// is full again, the allocation position stands just below the top, and the ports at both ends of the range
@@ -629,7 +669,7 @@ func init() {
 	assume := []string{"3 internal endpoints (two sharing an IP), 4 remotes (two sharing an IP, one never contacted), lifetimes {30 s, 100 ms}",
 		"time advances only by lifetime/2-1ms and lifetime+1ms steps, so no probe lands within 1 us of an expiry instant (left unconstrained by the property)",
 		"allocation is 'some fresh endpoint': the model adopts the port the implementation chose and checks validity, ownership and uniqueness"}
-	rule := "explicit-state BFS (depth 5 quick / 7 thorough, states merged on a reflective dump of the translator + model) over {outbound i->r, inbound r->e for every external endpoint seen so far and a never-allocated one, advance half / full lifetime} for all 9 mapping x filtering behaviours x 2 lifetimes and 1:1 mode with 1..3 IP pairs, from the empty table, from deep starts with 16382/16383/16384 live (and expired) mappings, from a full table of mixed age, and over endpoints whose concatenated address texts collide (both end ports old-but-live, the middle re-allocated after expiry); every translation result is compared with an RFC 4787 table model; the IPv4 addresses of successive datagrams alternate between 4-byte and 16-byte representation, and every chunk carries the instant of the previous datagram as its router-queue timestamp (time steps lie in between)"
+	rule := "explicit-state BFS (depth 5 quick / 7 thorough, states merged on a reflective dump of the translator + model) over {outbound i->r, inbound r->e for every external endpoint seen so far and a never-allocated one, advance half / full lifetime} for all 9 mapping x filtering behaviours x 2 lifetimes and 1:1 mode with 1..3 IP pairs, from the empty table, from deep starts with 16382/16383/16384 live (and expired) mappings, from a full table of mixed age, over endpoints whose concatenated address texts collide, and with the full range behind a real LAN router (inbound through Router.onInboundChunk) (both end ports old-but-live, the middle re-allocated after expiry); every translation result is compared with an RFC 4787 table model; the IPv4 addresses of successive datagrams alternate between 4-byte and 16-byte representation, and every chunk carries the instant of the previous datagram as its router-queue timestamp (time steps lie in between)"
 	register(&Check{ID: "C02", Seq: func(t string, k, n int, r *SeqReport) { runNAT("C02", t, k, n, r) }, Rule: rule, Assumptions: assume})
 	register(&Check{ID: "C03", Seq: func(t string, k, n int, r *SeqReport) { runNAT("C03", t, k, n, r) }, Rule: rule, Assumptions: assume})
 }
